@@ -64,5 +64,13 @@ def obligations(tier):
     obs.append(Ob('O7.6-chinese-api', 'fn', 'harness.C07zh:api_hours', timeout=t,
                   descr='composition through the public API (small-scope enumeration, not a solver verdict): every hour 0..24 x 14 day-part words x the spellings H点, H:30, H点半 is one time entity over the whole text with the hour of O7.6-chinese-time',
                   bounds='818 texts', encodes=[Z + 'time_extractor:ChineseTimeExtractor.__init__']))
+    zd = [{'desc': w, 'form': f} for w in zw for f in ('digit', 'hour', 'half')] if tier == 'quick' else zs
+    obs.append(Ob('O7.7-chinese-date-and-time', 'sx', 'harness.C07zh:h_zh_date_and_time', slices=zd, timeout=t,
+                  descr="Chinese '<date><day-part word><time>' through the real ChineseDateTimeParser._merge_date_and_time (date parser stubbed with a symbolic date, time from the real Chinese time parser): the date-time is composed of "
+                        'that date and of the time exactly as the time parser resolves it alone; TIMEX = date + T + that hour',
+                  bounds='date 1900..2099 (day <= 28), h 0..24 within the word\'s natural hours, m,s 0..59; region of F62 (evening word + 12, morning word + hour >= 12) excluded and searched separately',
+                  encodes=[Z + 'datetime_parser:ChineseDateTimeParser._merge_date_and_time'], stubs=['date extractor / parser deliver one symbolic date; the time extractor delivers the real match of the template']))
+    obs.append(Ob('O7.7-known-f62', 'sx', 'harness.C07zh:h_zh_date_and_time', slices=[{'desc': '晚上', 'form': 'hour', 'f62': 'only'}, {'desc': '早上', 'form': 'digit', 'f62': 'only'}], timeout=t, finding='F62',
+                  descr='region of finding F62 (the merge step re-applies a morning / evening shift the time parser has already decided)'))
     obs.append(Ob('O7.6-witness-f49', 'fn', 'harness.witness:api_witness', slices=[{'w': 'F49'}], timeout=t, finding='F49', descr='API witness of F49 (傍晚13点 -> TIMEX T25, value 00:00:00)'))
     return obs
